@@ -1104,7 +1104,10 @@ class AdbDeviceAsync(object):
         await self._filesync_send(constants.SEND, adb_info, filesync_info, data=fileinfo)
 
         if progress_callback:
-            total_bytes = (await get_running_loop().run_in_executor(None, os.fstat, stream.fileno())).st_size
+            if isinstance(stream, _AsyncBytesIO):
+                total_bytes = len(stream._bytesio.getbuffer())  # pylint: disable=protected-access
+            else:
+                total_bytes = (await get_running_loop().run_in_executor(None, os.fstat, stream.fileno())).st_size
 
         while True:
             data = await stream.read(self.max_chunk_size)
